@@ -253,6 +253,119 @@ theorem C03_run_state_norm (cfg : Config) (ov : List (String × Num)) (txt : Str
 
 end State
 
+/-! ### Non-vacuity -/
+section Examples
+open Jaqal.Emulator
+
+def endCX : GateDef := { name := "CX", tag := .native, params := [("c", .qubit), ("t", .qubit)], hasUnitary := true }
+def endCfg : Config := { natives := some [gX, endCX, gPrep, gMeas] }
+
+/-- a let-counted loop, an alias (`a = q[0], q[2]`), a macro; a subcircuit block in a literal loop -/
+def endText : String :=
+  "let n 2\nregister q[3]\nmap a q[0:3:2]\nmacro m x y { X x; CX x y }\nprepare_all\nloop n { m a[1] q[1] }\nmeasure_all\nloop 2 { subcircuit { X a[0] } }\n"
+
+/-- the same program with the let written as a literal (and no let at all) -/
+def endTextLit : String :=
+  "register q[3]\nmap a q[0:3:2]\nmacro m x y { X x; CX x y }\nprepare_all\nloop 3 { m a[1] q[1] }\nmeasure_all\nloop 2 { subcircuit { X a[0] } }\n"
+
+/-- an exact gate interpretation over `Int`: `X` and `CX` (control = first argument) as permutation matrices, nothing else -/
+def endU : String → List SArg → Option (Nat → Nat → Int) :=
+  fun n _ => if n == "X" then some xU else if n == "CX" then some cxU else none
+
+/-- the gate applications of `endText` that are written with their arguments, in flat order: `a[1] = q[2]`, `a[0] = q[0]` -/
+def endT : List GateApp :=
+  [("X", [.qubit ("q", 2)]), ("CX", [.qubit ("q", 2), .qubit ("q", 1)]), ("X", [.qubit ("q", 0)])]
+
+/-- everything the theorems of this file say, evaluated on `endText` under the overrides `ov`: the run succeeds; `fill_in_let`
+succeeds and the run of its result under no override reports the same summary (item 2); the source has a meaning `x₁`; the number
+of subcircuits is `pairCount x₁.flat` and the visits are `execVisits` of the unrolled skeleton (item 3); every gate application
+is `AppOK` on 3 qubits, the table is `endT`, and the state the loop nests compute for the `k`-th subcircuit is the basis state `expectBasis[k]`
+(item 4). -/
+def endCheck (ov : List (String × Num)) (expectSub : Nat) (expectVisits expectBasis : List Nat) : Bool :=
+  match Pipeline.parseProgram endCfg endText with
+  | .ok c =>
+    match ExpandSubcircuits.expandSubcircuits none none c, runCircuit ov c, FillIn.fillInLet ov c with
+    | .ok c₁, .ok s, .ok c' =>
+      (match runCircuit [] c' with
+       | .ok s' => s' == s
+       | _ => false) &&
+      (match rawMeaning (FillIn.normOv ov) c₁ with
+       | .ok x₁ =>
+         s.subcircuits == pairCount x₁.flat && s.subcircuits == expectSub && s.visits == expectVisits &&
+         decide (∀ a ∈ specTable x₁, AppOK 3 a) && specTable x₁ == endT &&
+         (match skelOf (ExpandMacros.spl x₁) with
+          | some (body, _) =>
+            (match Walk.discover body with
+             | .ok traces =>
+               s.visits == execVisits (traces.map (·.1)) (unroll body) &&
+               traces.length == expectBasis.length &&
+               (traces.zip expectBasis).all (fun p =>
+                 decide (∀ i < 2 ^ 3, emuState endU (specTable x₁) body p.1 i = if i = p.2 then 1 else 0))
+             | _ => false)
+          | none => false)
+       | _ => false)
+    | _, _, _ => false
+  | _ => false
+
+/-- `n = 2`: `X q2; CX q2 q1` twice takes `|000⟩` to `|010⟩` (index 2); the second subcircuit (`X q0`, visited twice) to index 1 -/
+example : endCheck [] 2 [0, 1, 1] [2, 1] = true := by decide +kernel
+
+/-- `n` overridden by 3: a third round gives `|100⟩` (index 4) -/
+example : endCheck [("n", .int 3)] 2 [0, 1, 1] [4, 1] = true := by decide +kernel
+
+/-- `C03_run_same_meaning`: the text with the let overridden by 3 and the text with the literal 3 have THE SAME tree, and report
+the same summary -/
+example : (match Pipeline.parseProgram endCfg endText, Pipeline.parseProgram endCfg endTextLit with
+    | .ok c, .ok c' =>
+      (match ExpandSubcircuits.expandSubcircuits none none c, ExpandSubcircuits.expandSubcircuits none none c' with
+       | .ok c₁, .ok c₁' =>
+         (match rawMeaning (FillIn.normOv [("n", .int 3)]) c₁, rawMeaning (FillIn.normOv []) c₁',
+             runCircuit [("n", .int 3)] c, runCircuit [] c' with
+          | .ok x, .ok x', .ok s, .ok s' =>
+            semEq (ExpandMacros.spl x) (ExpandMacros.spl x') && semEq x x' && s == s' && s.subcircuits == 2
+          | _, _, _, _ => false)
+       | _, _ => false)
+    | _, _ => false) = true := by decide +kernel
+
+/-- the hypotheses of `C03_state_table_norm` for `endU` (over `Int`, with the trivial star): both matrices are unitary -/
+theorem endU_unitary (n : String) (cl : List SArg) (M : Nat → Nat → Int) (hM : endU n cl = some M) :
+    IsUnitaryOn M (2 ^ (if n = "X" then 1 else 2)) := by
+  unfold endU at hM
+  by_cases hx : n = "X"
+  · subst hx
+    simp only [beq_self_eq_true, if_true, Option.some.injEq] at hM
+    subst hM
+    intro c hc c' hc'
+    norm_num at hc hc'
+    interval_cases c <;> interval_cases c' <;> simp [xU]
+  · by_cases hcx : n = "CX"
+    · subst hcx
+      simp at hM
+      subst hM
+      have hne : ¬ (("CX" : String) = "X") := by decide
+      intro c hc c' hc'
+      simp only [hne, if_false] at hc hc' ⊢
+      norm_num at hc hc' ⊢
+      interval_cases c <;> interval_cases c' <;> simp [cxU]
+    · have h1 : (n == "X") = false := by simpa using hx
+      have h2 : (n == "CX") = false := by simpa using hcx
+      simp [h1, h2] at hM
+
+/-- … so the hypotheses of `C03_run_state` / `C03_run_state_norm` hold for the table of `endText`, and the norm is one -/
+theorem endT_hyps : (∀ a ∈ endT, AppOK 3 a) ∧
+    ∀ a ∈ endT, ∀ M, endU a.1 (classicalOf a) = some M → IsUnitaryOn M (2 ^ (qubitsOf a).length) := by
+  refine ⟨by decide, ?_⟩
+  intro a ha M hM
+  have := endU_unitary a.1 _ M hM
+  simp only [endT, List.mem_cons, List.not_mem_nil, or_false] at ha
+  rcases ha with rfl | rfl | rfl <;> simpa [qubitsOf, appQubitsZ] using this
+
+example (body : List Walk.Stmt) (tr : Addr × Addr) :
+    ∑ i ∈ Finset.range (2 ^ 3), star (emuState endU endT body tr i) * emuState endU endT body tr i = 1 :=
+  C03_state_table_norm endU endT 3 endT_hyps.1 endT_hyps.2 body tr
+
+end Examples
+
 end Jaqal.RunModel
 
 #print axioms Jaqal.RunModel.C03_run_same_meaning
